@@ -247,6 +247,20 @@ def run(ctx):
                         len(blines), what, r.status, " and writes x.inkfempre" if "x.inkfempre" in r.files else "", rep_k + 1), {"text": text, "args": ["pre", "x.inkfem"], "what": what})
                 concrete += 1
                 break
+    # a very large definition (comments and all: 17 MiB) whose fault stands at its very end
+    if good:
+        pad = "# " + "." * 97 + "\n"
+        huge = good.rstrip("\n") + "\n" + pad * (17 * 1024 * 1024 // len(pad) + 8)
+        for what, tail in (("a load on an undefined bar", "|loads|\nfy ld no_such_bar 0 -5 1 -5\n"), ("a line that is nothing", "|bars|\nthis is not a bar\n")):
+            r = cli.run(ctx, ["pre", "x.inkfem"], files={"x.inkfem": huge + tail}, name="c14huge", timeout=600)
+            cli_runs += 1
+            if r.status == 0 or "x.inkfempre" in r.files:
+                if concrete < 3:
+                    ctx.violation("a definition of %d bytes ending in %s: pre exits %s%s" % (len(huge) + len(tail), what, r.status, " and writes x.inkfempre" if "x.inkfempre" in r.files else ""),
+                                  {"how": "a valid definition, then %d comment lines of 100 bytes, then: %r" % (len(huge) // 100, tail), "args": ["pre", "x.inkfem"]})
+                concrete += 1
+        import shutil
+        shutil.rmtree(os.path.join(ctx.work, "cli_c14huge"), ignore_errors=True)
     frame = cli.run(ctx, ["generate", "--type", "retic", "--spans", "2", "--levels", "2"], name="c14pre").stdout
     damaged_pre = []
     for src in (good, frame):       # (in the frame several consecutive bars are sliced into the same number of nodes)
